@@ -186,6 +186,11 @@ func propC15(c *Ctx, r *Report) {
 	r.Clauses = append(r.Clauses, zeroInitClause)
 	c.runZeroInitOpVariable(r, "zeroinit.opvariable")
 	r.floor("zeroinit.opvariable", 2)
+	r.Clauses = append(r.Clauses, optionReadClause+" - the bounds-check policies")
+	for _, p := range []string{"spirv/internal/codegen", "msl/internal/codegen", "hlsl/internal/codegen", "glsl/internal/codegen"} {
+		c.runOptionRead(r, "option.read", p, func(f string) bool { return strings.HasPrefix(f, "BoundsCheckPolicies.") || strings.Contains(f, "BoundsCheck") || strings.Contains(f, "ZeroInit") || strings.Contains(f, "LoopBounding") }, optionReadExceptions)
+	}
+	r.floor("option.read", 8)
 	r.floor("spirv.Block.walkers", 3)
 	r.floor("routing.index-sites", 3)
 	r.floor("hardened.ops", 6)
